@@ -585,5 +585,8 @@ def check(run):
     run.floor('slice paths (substr/left/right)', slicing(run, m, F, E, L), 20)
     run.floor('trim paths', trims(run, m, F, E, L), 10)
     run.floor('before_/after_ overloads', separators(run, m, F, E, L), 12)
+    # R08.8: a trim that tests its units against a folded representation of the character set (expected count zero on this tree)
+    from . import setrep
+    run.counts['unit-set predicates under trim'] = setrep.check_members(run, 'R08.8', m, F, E, r'^ST::string::trim(_left|_right)?\(char const\*\) const$', 'trim')
     for o in run.obs[:3] + [o for o in run.obs if o['rule'] == 'R08.2'][:2]:
         run.sample(dict(rule=o['rule'], subject=o['subject'], case=o['disc'], verdict=o['verdict'], detail=o['detail'][:160]))
